@@ -37,6 +37,37 @@ Theorem C01_walk_trs_desc : forall txt md lead gs L tvals svals c c',
 Proof. exact trs_desc_walk_md. Qed.
 Print Assumptions C01_walk_trs_desc.
 
+(* Sec-desc-Twp/Rge: groups  S block S block ... T ; the chunk parser pops the first Twp/Rge before the walk and every
+   T marker pops the next: each section is paired with the Twp/Rge that FOLLOWS its group *)
+Theorem C01_walk_s_desc_tr : forall txt md lead gs L t0 tvals svals c c',
+  (forall p k, In (p, k) (s_desc_tr_marks lead gs L) -> md_get p md = Some k) ->
+  length svals = total_secs gs -> cp_wt_list c = t0 :: tvals -> cp_ws_list c = svals ->
+  walk txt true md (map fst (s_desc_tr_marks lead gs L)) (get_next_twprge c) = Ok c' ->
+  exists news, cp_tc c' = cp_tc c ++ news /\ Forall2 matches_triple news (grp_triples_str txt gs t0 tvals svals) /\ cp_ws_list c' = [].
+Proof. exact s_desc_tr_walk. Qed.
+Print Assumptions C01_walk_s_desc_tr.
+
+(* Twp/Rge-desc-Sec: groups  T block S block S ... ; a block becomes the description of the section that FOLLOWS it *)
+Theorem C01_walk_tr_desc_s : forall txt md lead gs L tvals svals c c',
+  (forall p k, In (p, k) (tr_desc_s_marks lead gs L) -> md_get p md = Some k) -> (lead = true -> gs <> []) ->
+  cp_wt_list c = tvals -> cp_ws_list c = svals ->
+  walk txt false md (map fst (tr_desc_s_marks lead gs L)) (get_next_sec c) = Ok c' ->
+  exists news, cp_tc c' = cp_tc c ++ news /\ Forall2 matches_triple news (grp_triples_trd txt gs tvals (next_sec svals) (tl svals)).
+Proof. exact tr_desc_s_walk. Qed.
+Print Assumptions C01_walk_tr_desc_s.
+
+(* desc-Sec-Twp/Rge: groups  block S block S ... T ; each block belongs to the section after it and to the Twp/Rge
+   that closes its group *)
+Theorem C01_walk_desc_str : forall txt md gs tail tvals svals c c',
+  (tail = [] \/ exists L, tail = [(L, TEXT_END)]) ->
+  (forall p k, In (p, k) (dstr_marks 0 TEXT_START gs tail) -> md_get p md = Some k) ->
+  cp_wt_list c = tvals -> cp_ws_list c = svals ->
+  walk txt false md (map fst (dstr_marks 0 TEXT_START gs tail)) (get_next_twprge (get_next_sec c)) = Ok c' ->
+  exists news, cp_tc c' = cp_tc c ++ news /\
+    Forall2 matches_triple news (dstr_triples txt gs 0 (next_tw tvals) (tl tvals) (next_sec svals) (tl svals)).
+Proof. exact desc_str_walk. Qed.
+Print Assumptions C01_walk_desc_str.
+
 (* non-vacuity: the markers the real finders produce for a two-group description have exactly that shape *)
 Definition ex_text : str := s "T154N-R97W Sec 14: NE/4, Sec 15: W/2" ++ [10%N] ++ s "T155N-R97W Sec 1: ALL".
 Example C01_walk_premises :
